@@ -19,8 +19,11 @@ func zHistoryOp(op int, s Serializer, e *Encoder, d *Decoder) {
 		b, _ := ToBytes(&ZInner{N: 5, S: "d"}, map[string]string{"ZInner": "ZInner"})
 		s.ToObject(b)
 		d.Decode(b)
-	case 4: // decode of arbitrary bytes
-		g := vBytes("garbage", 3)
+	case 4: // decode of a damaged message (one arbitrary octet inside a class definition)
+		gb := vUint8("garbage")
+		vAssume(gb >= 0x41)
+		vAssume(gb <= 0x7a)
+		g := []byte{'C', 0x01, gb, 0x91, 0x01, 'n', 0x60}
 		s.ToObject(g)
 		d.Decode(g)
 	case 5: // streaming writes and reads that leave definitions and refs behind
@@ -43,15 +46,8 @@ func zHistoryOp(op int, s Serializer, e *Encoder, d *Decoder) {
 // H_C11_reuse: after any short history of earlier uses, a one-shot call gives exactly the bytes / value / error
 // a fresh instance gives; the probe value, the probe bytes and the (complete) maps are never written to.
 func H_C11_reuse() {
-	probe := &ZOuter{A: vInt32("a"), In: ZInner{N: 7, S: "in"}, P: &ZInner{N: vInt32("pn"), S: "p"}, Z: 11}
-	tm, nm := vExtract(probe)
-	t2, n2 := vExtract(&ZTriple{})
-	for k, x := range t2 {
-		tm[k] = x
-	}
-	for k, x := range n2 {
-		nm[k] = x
-	}
+	probe := &ZOuter{A: vInt32("a"), In: ZInner{N: 7, S: "in"}, P: &ZInner{N: 5, S: "p"}, Z: 11}
+	tm, nm := vExtractAll(probe, &ZTriple{})
 	s := NewSerializer(tm, nm)
 	e := NewEncoder(nil, nm)
 	d := NewDecoder(nil, tm)
@@ -90,7 +86,24 @@ func H_C11_reuse_errors() {
 	s := NewSerializer(tm, nm)
 	d := NewDecoder(nil, tm)
 	zHistoryOp(vChoice("op", 7), s, NewEncoder(nil, nm), d)
-	g := vBytes("probe", 2)
+	// damaged messages: a fixed menu of shapes with one arbitrary octet in value position
+	pb := vUint8("probe")
+	vAssume(pb >= 0x80) // compact ints and longs
+	var g []byte
+	switch vChoice("shape", 6) {
+	case 0:
+		g = []byte{pb}
+	case 1:
+		g = []byte{'C', 0x06, 'Z', 'I', 'n', 'n', 'e', 'r', 0x92, 0x01, 'n', 0x01, 's', 0x60, pb} // truncated instance
+	case 2:
+		g = []byte{0x57, pb} // unterminated list
+	case 3:
+		g = []byte{'O', pb} // instance of an undefined class
+	case 4:
+		g = []byte{0x51, pb} // dangling back-reference
+	case 5:
+		g = []byte{'H', pb, pb} // unterminated map
+	}
 	o0, e0 := NewDecoder(nil, tm).Decode(g)
 	o1, e1 := s.ToObject(g)
 	o2, e2 := d.Decode(g)
